@@ -228,14 +228,16 @@ Proof.
   assert (C2 : closed s2 = false) by reflexivity.
   unfold commit_active. rewrite C2, M2, LK1. cbn [i_id i_kind i_parent negb andb].
   destruct (bad_name t) eqn:BN.
-  { right. right. exists t, EOther. simpl. split; [reflexivity|]. split; [reflexivity|]. split; [discriminate|]. auto. }
+  { right. right. exists t, EOther. simpl. split; [reflexivity|]. split; [reflexivity|]. split; [discriminate|]. split; reflexivity. }
   destruct (lookup (meta s1) t) as [j|] eqn:LT1.
   { right. left. exists t, j. simpl. auto. }
   cbn [kind_eqb negb].
   destruct (commit_parent parent (l_wp (set_remote l))) as [e|np] eqn:CP.
-  { right. right. exists t, e. simpl. split; [reflexivity|]. split; [reflexivity|]. split; [|auto].
-    unfold commit_parent in CP. destruct parent as [p|]; [|discriminate].
-    destruct (l_wp (set_remote l)) as [q|]; [|discriminate]. destruct (Nat.eqb p q); inversion CP. discriminate. }
+  { assert (EE : e = EInvalid).
+    { unfold commit_parent in CP. destruct parent as [p|]; [|discriminate].
+      destruct (l_wp (set_remote l)) as [q|]; [|discriminate]. destruct (Nat.eqb p q); inversion CP. reflexivity. }
+    subst e. right. right. exists t, EInvalid. simpl.
+    split; [reflexivity|]. split; [reflexivity|]. split; [discriminate|split; reflexivity]. }
   destruct (match np with
             | Some p => match lookup (meta s1) p with
                         | Some pi => if kind_eqb (i_kind pi) KCommitted then None else Some EFailedPre
@@ -243,10 +245,12 @@ Proof.
                         end
             | None => None
             end) as [e|] eqn:PE.
-  { right. right. exists t, e. simpl. split; [reflexivity|]. split; [reflexivity|]. split; [|auto].
-    destruct np as [p|]; [|discriminate]. destruct (lookup (meta s1) p) as [pi|]; [|inversion PE; discriminate].
-    destruct (kind_eqb (i_kind pi) KCommitted); inversion PE. discriminate. }
-  left. exists t, np. simpl. auto.
+  { assert (EE : e = ENotFound \/ e = EFailedPre).
+    { destruct np as [p|]; [|discriminate]. destruct (lookup (meta s1) p) as [pi|]; [|inversion PE; auto].
+      destruct (kind_eqb (i_kind pi) KCommitted); inversion PE. auto. }
+    right. right. exists t, e.
+    destruct EE; subst e; simpl; (split; [reflexivity|]; split; [reflexivity|]; split; [discriminate|split; reflexivity]). }
+  left. exists t, np. simpl. split; [reflexivity|]. split; [reflexivity|]. split; [exact LT1|]. split; reflexivity.
 Qed.
 
 (* ---------- events of one step; unmount discipline ---------- *)
@@ -269,7 +273,7 @@ Lemma commit_log s nm key l r s' x : commit_active s nm key l r = (s', x) ->
 Proof.
   intros H. destruct x as [e|].
   - apply commit_err in H. subst. auto.
-  - apply commit_ok in H. destruct H as [_ [i [_ [_ [_ E]]]]]. subst. simpl. auto.
+  - apply commit_ok in H. destruct H as [_ [i [np [_ [_ [_ [_ [_ E]]]]]]]]. subst. simpl. auto.
 Qed.
 
 Lemma mounts_of_log cbad s sn ck : exists E,
@@ -587,7 +591,7 @@ Proof.
       apply mounted_in in MM. destruct MM as [lb MM]. rewrite M in MM. simpl in MM.
       apply (inv_mle _ I) in MM. simpl in MM. lia.
     + unfold mount_shape. rewrite KD, ID. destruct (sn_parents sn); simpl; eauto.
-  - destruct B2 as [t' [LT' [MT [LN [R E']]]]]. rewrite R, E'. assert (t' = t) by congruence. subst t'.
+  - destruct B2 as [t' [np [LT' [MT [LN [R E']]]]]]. rewrite R, E'. assert (t' = t) by congruence. subst t'.
     simpl. rewrite Nat.eqb_refl. eexists. split; [reflexivity|]. simpl. split; [reflexivity|].
     intros _. split; [reflexivity|]. split; [|split].
     + unfold mount_count. simpl. rewrite Nat.eqb_refl. simpl. f_equal. apply count_none.
@@ -598,8 +602,8 @@ Proof.
     simpl in LS. destruct (Nat.eqb_spec key t); [congruence|].
     simpl. destruct (Nat.eqb_spec key t); [congruence|]. exists j. split; [exact LS|]. split; [eauto|].
     intros Q. congruence.
-  - destruct B4 as [t' [LT' [MT [BN [R E']]]]]. rewrite R, E'. simpl. right. right.
-    split; [exact MT|]. split; [discriminate|]. rewrite Nat.eqb_refl. eexists. split; [reflexivity|].
+  - destruct B4 as [t' [e4 [LT' [MT [BN [R E']]]]]]. rewrite R, E'. simpl. right. right.
+    split; [exact MT|]. split; [exact BN|]. rewrite Nat.eqb_refl. eexists. split; [reflexivity|].
     simpl. split; [reflexivity|]. split; [reflexivity|].
     unfold mount_count. simpl. rewrite Nat.eqb_refl. simpl. f_equal. apply count_none.
     intros x Hx Q. apply (inv_mle _ I) in Hx. lia.
@@ -691,7 +695,7 @@ Lemma rinv_commit s nm key l r s' x : RInv s -> commit_active s nm key l r = (s'
 Proof.
   intros R H. destruct x as [e|].
   - apply commit_err in H. subst. exact R.
-  - apply commit_ok in H. destruct H as [_ [i [LK [_ [_ E]]]]]. subst.
+  - apply commit_ok in H. destruct H as [_ [i [np [LK [_ [_ [_ [_ E]]]]]]]]. subst.
     eapply rinv_gen with (E := []); [exact R| |apply norc_nil|simpl; lia|auto| |auto]; simpl.
     + rewrite app_nil_r. reflexivity.
     + intros id _ [H|H].
@@ -719,7 +723,7 @@ Proof.
     + destruct B1 as [s2 [S2 [E' _]]]. rewrite E'. apply rinv_mounts_of.
       pose proof (create_ok _ _ _ _ _ _ _ CS) as [C0 _].
       destruct S2 as [[_ ->]|[_ [_ ->]]]; [|apply rinv_mount]; apply rinv_created; auto.
-    + destruct B2 as [t [_ [_ [LN [_ E']]]]]. rewrite E'.
+    + destruct B2 as [t [np [_ [_ [LN [_ E']]]]]]. rewrite E'.
       set (s1 := created s KActive key parent l) in *.
       set (s2 := fs_mount s1 (S (seq s)) lm true).
       pose proof (create_ok _ _ _ _ _ _ _ CS) as [C0 _].
